@@ -13,7 +13,7 @@ INPLACE = set(VARIANTS[:6] + ["prune_subtree"])
 
 SPEC = ([("l%d" % i, int) for i in range(0, MAXN)] + [("k%d" % i, bool) for i in range(MAXN)] +
         [("lens_mode", int), ("lpos", int), ("t1", int), ("rooted", bool), ("enc", bool),
-         ("f_upd", bool), ("f_sup", bool), ("variant", str), ("shape", list), ("lens_modes", int)])
+         ("f_upd", bool), ("f_sup", bool), ("f_rec", bool), ("variant", str), ("shape", list), ("lens_modes", int)])
 
 
 def restricted_distances(dist, keep):
@@ -99,6 +99,22 @@ def c08_induced(kw):
     elif variant == "retain_taxa_with_labels":
         tree.retain_taxa_with_labels(keep, update_bipartitions=upd, suppress_unifurcations=sup)
         res = tree
+    elif variant == "filter_leaf_nodes" and not kw["f_rec"]:
+        # a single pass (recursive=False): internal nodes may be left as leaves, so only the report of the
+        # removed nodes, the survival of every accepted leaf and well-formedness are claimed
+        returned = tree.filter_leaf_nodes(lambda nd: nd.taxon is not None and nd.taxon.label in keepset,
+                                          recursive=False, update_bipartitions=False, suppress_unifurcations=False)
+        wf = tg.wellformed(tree)
+        if wf is not None:
+            return wf
+        reach = set(id(x) for x in tg.reachable(tree))
+        exp_removed = [nd for nd in leaves if tg.leaf_label(nd) not in keepset]
+        if sorted(id(x) for x in returned) != sorted(id(x) for x in exp_removed):
+            return "reported-removed-leaves-wrong"
+        for nd in leaves:
+            if (id(nd) in reach) != (tg.leaf_label(nd) in keepset):
+                return "single-pass-removed-the-wrong-leaves"
+        return True
     elif variant == "filter_leaf_nodes":
         returned = tree.filter_leaf_nodes(lambda nd: nd.taxon is not None and nd.taxon.label in keepset,
                                           update_bipartitions=upd, suppress_unifurcations=sup)
